@@ -585,9 +585,149 @@ async fn run_async(case: Value) -> Value {
     json!({ "obs": obs })
 }
 
+
+// ------------------------------------------------------------------------------------ level G: the registry
+
+const URIS: [&str; 5] = ["/a", "/a/b", "/a/b/c", "/b", "/a/d"];
+
+fn map_key(body: &str) -> String {
+    // @update(key:"/a/b") ..  or  @update(key:x) ..
+    let ix = body.find("key:").unwrap_or_else(|| panic!("harness: no key in {:?}", body)) + 4;
+    let rest = &body[ix..];
+    let end = rest.find(')').unwrap_or(rest.len());
+    rest[..end].trim().trim_matches('"').to_string()
+}
+
+/// Level "G": only the registry of agents - IntrospectionResolver::register_agent / close_agent /
+/// resolve_agent against the real introspection task, and the real mesh meta agent (on the real agent
+/// runtime) whose `nodes` and `nodes#/` lanes read the shared forest.
+async fn run_g_async(case: Value) -> Value {
+    let pulse = Duration::from_millis(PULSE_MS);
+    let config = IntrospectionConfig {
+        node_pulse_interval: pulse,
+        lane_pulse_interval: pulse,
+        registration_channel_size: NonZeroUsize::new(8).unwrap(),
+    };
+    let (intro_stop_tx, intro_stop_rx) = trigger::trigger();
+    let mut routes = Routes(Vec::new());
+    let (resolver, task): (IntrospectionResolver, _) = register_introspection(intro_stop_rx, config, &mut routes);
+    let mut intro_task: Pin<Box<dyn Future<Output = ()> + Send>> = Box::pin(task);
+    let mesh_pat = swimos_introspection::mesh_pattern();
+    let ix = routes.0.iter().position(|(p, _)| p == &mesh_pat).expect("harness: no mesh route");
+    let mesh_uri = "swimos:meta:mesh";
+    let mut mesh = start_runtime(&routes.0[ix].1, Uuid::from_u128(500), mesh_uri, HashMap::new(), None);
+    let mut peer = attach(&mesh, rid(300), mesh_uri).await;
+    peer.request("link", "nodes").await;
+    peer.request("link", "nodes#/").await;
+    for _ in 0..4 {
+        settle().await;
+    }
+    let _ = peer.frames().await;
+    let mut held: HashMap<u64, NodeReporting> = HashMap::new();
+    let mut obs = Vec::new();
+    let poll_intro = |t: &mut Pin<Box<dyn Future<Output = ()> + Send>>| {
+        let mut cx = Context::from_waker(futures::task::noop_waker_ref());
+        let _ = t.as_mut().poll(&mut cx);
+    };
+    for a in case["acts"].as_array().unwrap() {
+        let k = a["k"].as_str().unwrap();
+        let mut o = json!({"res": "-", "nodes": [-1], "parts": []});
+        match k {
+            "greg" => {
+                let ag = geti(a, "a");
+                let uri = URIS[geti(a, "u") as usize - 1];
+                let rep = resolver
+                    .register_agent(Uuid::from_u128(1000 + ag as u128), uri.parse().unwrap(), Text::new(&format!("agent{}", ag)))
+                    .expect("harness: the introspection task has stopped");
+                held.insert(ag, rep);
+            }
+            "gdrop" => {
+                held.remove(&geti(a, "a"));
+            }
+            "gclose" => {
+                let _ = resolver.close_agent(Uuid::from_u128(1000 + geti(a, "a") as u128));
+            }
+            "ipoll" => poll_intro(&mut intro_task),
+            "gresolve" => {
+                let uri = URIS[geti(a, "u") as usize - 1];
+                let mut fut = Box::pin(resolver.resolve_agent(Text::new(uri)));
+                let first = futures::poll!(fut.as_mut());
+                if first.is_ready() {
+                    panic!("harness: resolve_agent answered before the introspection task ran");
+                }
+                poll_intro(&mut intro_task);
+                match futures::poll!(fut.as_mut()) {
+                    Poll::Ready(Ok(mut handle)) => {
+                        o["res"] = json!(if handle.new_snapshot().is_some() { "live" } else { "dead" });
+                    }
+                    Poll::Ready(Err(_)) => o["res"] = json!("none"),
+                    Poll::Pending => panic!("harness: resolve_agent was not answered by one poll of the introspection task"),
+                }
+            }
+            "gnodes" | "gparts" => {
+                let lane = if k == "gnodes" { "nodes" } else { "nodes#/" };
+                peer.request("sync", lane).await;
+                for _ in 0..4 {
+                    settle().await;
+                }
+                let frames = peer.frames().await;
+                let mut nodes: Vec<u64> = Vec::new();
+                let mut parts: Vec<Value> = Vec::new();
+                let mut synced = false;
+                for (ln, kind, body) in frames {
+                    if ln != lane {
+                        continue;
+                    }
+                    match kind {
+                        "E" => {
+                            let key = map_key(&body);
+                            if k == "gnodes" {
+                                let u = URIS.iter().position(|x| *x == key).map(|x| x as u64 + 1).unwrap_or(0);
+                                nodes.push(u);
+                            } else if body.contains("childCount") {
+                                let ix = body.find("childCount:").unwrap() + 11;
+                                let digits: String = body[ix..].chars().take_while(|c| c.is_ascii_digit()).collect();
+                                parts.push(json!([key, "J", digits.parse::<u64>().unwrap_or(0)]));
+                            } else {
+                                parts.push(json!([key, "L", 0]));
+                            }
+                        }
+                        "Y" => synced = true,
+                        _ => {}
+                    }
+                }
+                if !synced {
+                    panic!("harness: the mesh meta agent did not answer the sync of {}", lane);
+                }
+                if k == "gnodes" {
+                    nodes.sort();
+                    o["nodes"] = json!(nodes);
+                } else {
+                    parts.sort_by_key(|p| p[0].as_str().unwrap_or("").to_string());
+                    o["parts"] = json!(parts);
+                }
+            }
+            other => panic!("harness: bad G action {}", other),
+        }
+        obs.push(o);
+    }
+    intro_stop_tx.trigger();
+    if let Some(tx) = mesh.stop_tx.take() {
+        tx.trigger();
+    }
+    for _ in 0..4 {
+        settle().await;
+    }
+    json!({ "obs": obs })
+}
+
 fn run_case(case: &Value) -> Value {
     let rt = tokio::runtime::Builder::new_current_thread().enable_time().start_paused(true).build().unwrap();
-    rt.block_on(run_async(case.clone()))
+    if case["cfg"]["level"].as_str() == Some("G") {
+        rt.block_on(run_g_async(case.clone()))
+    } else {
+        rt.block_on(run_async(case.clone()))
+    }
 }
 
 fn main() {
